@@ -1325,3 +1325,337 @@ func runR98(c *Ctx) {
 		})
 	}
 }
+
+// ---- R99: every probe sequence of the hash table advances the same way ----
+
+func init() {
+	register(&Rule{ID: "R99", Name: "PROBE-AGREE", Floor: 2,
+		Text: "in internal/grouper every open-addressing probe loop (a position that starts at hash & mask and is advanced as (pos OP k) & mask) advances by the same operation and the same constant: insertion/lookup and relocation during growth must visit the slots of a collision chain in the same order, otherwise a key displaced by a grow is not found again and equal keys form several groups",
+		Run:  runR99})
+}
+
+func runR99(c *Ctx) {
+	p := c.P
+	type step struct {
+		desc string
+		pos  string
+		fn   string
+	}
+	var steps []step
+	for _, fn := range p.FuncsIn("internal/grouper") {
+		for _, li := range loopsOf(fn) {
+			for _, in := range li.header.Instrs {
+				phi, ok := in.(*ssa.Phi)
+				if !ok {
+					break
+				}
+				for i, e := range phi.Edges {
+					if !inLoop(li, li.header.Preds[i]) {
+						continue
+					}
+					and, ok := e.(*ssa.BinOp)
+					if !ok || and.Op != token.AND {
+						continue
+					}
+					adv, ok := and.X.(*ssa.BinOp)
+					if !ok || adv.X != ssa.Value(phi) {
+						continue
+					}
+					k, isK := constInt(adv.Y)
+					d := fmt.Sprintf("pos %s %s", adv.Op, describe(adv.Y))
+					if isK {
+						d = fmt.Sprintf("pos %s %d", adv.Op, k)
+					}
+					steps = append(steps, step{d, p.instrPos(adv), fname(fn)})
+				}
+			}
+		}
+	}
+	if len(steps) < 2 {
+		c.undecided("internal/grouper|probe loops", "-", fmt.Sprintf("found %d probe loop(s), expected at least the insertion and the relocation loop", len(steps)))
+		return
+	}
+	for _, s := range steps {
+		key := s.fn + "|probe step"
+		if s.desc == steps[0].desc && s.desc == "pos + 1" {
+			c.ok(key, s.pos, "advances by "+s.desc+" under the mask")
+		} else if s.desc == steps[0].desc {
+			c.ok(key, s.pos, "advances by "+s.desc+" under the mask, like every other probe loop")
+		} else {
+			c.bad(key, s.pos, fmt.Sprintf("this probe loop advances by `%s` while %s advances by `%s`: entries relocated by a grow are not found again by later lookups, so equal keys form duplicate groups", s.desc, steps[0].fn, steps[0].desc))
+		}
+	}
+}
+
+// ---- R94: strictness of an enum column, and when two enum columns may be compared by code ----
+
+func init() {
+	register(&Rule{ID: "R94", Name: "ENUM-STRICT-EQTYPES", Floor: 9,
+		Text: "(a) the strict flag of an enum factory is stored as `len(declared values) > 0` (or != 0, >= 1): one declared value already fixes the value set; (b) ecolumn.equalTypes, which licenses comparing two enum columns by code, is evaluated (E5) in the eight worlds of (value tables have equal length, data have equal length, the compared table entries are equal) on one-entry tables and returns true only when all three hold - codes of tables that differ anywhere do not identify the same strings",
+		Run:  runR94})
+}
+
+func runR94(c *Ctx) {
+	p := c.P
+	// (a)
+	n := 0
+	for _, fn := range p.FuncsIn("internal/ecolumn") {
+		eachInstr(fn, func(in ssa.Instruction) {
+			st, ok := in.(*ssa.Store)
+			if !ok {
+				return
+			}
+			fa, ok := st.Addr.(*ssa.FieldAddr)
+			if !ok || fieldNameAt(fa) != "strict" {
+				return
+			}
+			n++
+			key := fname(fn) + "|strict flag"
+			b, ok := st.Val.(*ssa.BinOp)
+			if !ok {
+				if _, isConst := st.Val.(*ssa.Const); isConst {
+					c.okTrivial(key, p.instrPos(st), "constant")
+					return
+				}
+				c.undecided(key, p.instrPos(st), "the strict flag is "+describe(st.Val))
+				return
+			}
+			call, isLen := b.X.(*ssa.Call)
+			k, isK := constInt(b.Y)
+			if isLen && builtinName(call) == "len" && isK && (k == 0 && (b.Op == token.GTR || b.Op == token.NEQ) || k == 1 && b.Op == token.GEQ) {
+				c.ok(key, p.instrPos(st), "strict exactly when values were declared")
+			} else {
+				c.bad(key, p.instrPos(st), fmt.Sprintf("the strict flag is `%s`, not `len(values) > 0`: an enum declared with few values accepts undeclared ones", describe(b)))
+			}
+		})
+	}
+	if n == 0 {
+		c.undecided("internal/ecolumn|strict flag", "-", "no store to a field named strict")
+	}
+	// (b)
+	fn := p.Func("internal/ecolumn", "equalTypes")
+	if fn == nil || len(fn.Params) != 2 {
+		c.undecided("internal/ecolumn.equalTypes", "-", "not found")
+		return
+	}
+	fieldOfLen := func(v ssa.Value) string {
+		call, ok := v.(*ssa.Call)
+		if !ok || builtinName(call) != "len" {
+			return ""
+		}
+		return fieldNameOfLoad(call.Call.Args[0])
+	}
+	for w := 0; w < 8; w++ {
+		lv, ld, el := w&1 != 0, w&2 != 0, w&4 != 0
+		key := fmt.Sprintf("internal/ecolumn.equalTypes|world sameTableLen=%v sameDataLen=%v entriesEqual=%v", lv, ld, el)
+		pe := &pathExec{fn: fn}
+		pe.lenOf = func(call *ssa.Call) (int64, bool) { return 1, true }
+		atom := func(x ssa.Value) (bool, bool) {
+			b, ok := x.(*ssa.BinOp)
+			if !ok {
+				return false, false
+			}
+			fx, fy := fieldOfLen(b.X), fieldOfLen(b.Y)
+			if fx != "" && fx == fy && (b.Op == token.NEQ || b.Op == token.EQL) {
+				same := lv
+				if fx == "data" {
+					same = ld
+				}
+				return same == (b.Op == token.EQL), true
+			}
+			if bt, ok := b.X.Type().Underlying().(*types.Basic); ok && bt.Info()&types.IsString != 0 && (b.Op == token.NEQ || b.Op == token.EQL) {
+				if !lv {
+					return false, false // entries of tables of different length are not comparable position by position
+				}
+				return el == (b.Op == token.EQL), true
+			}
+			if isIntegerType(b.X.Type()) {
+				x1, ok1 := pe.intOf(b.X, 0)
+				y1, ok2 := pe.intOf(b.Y, 0)
+				if ok1 && ok2 {
+					switch b.Op {
+					case token.LSS:
+						return x1 < y1, true
+					case token.GEQ:
+						return x1 >= y1, true
+					}
+				}
+			}
+			return false, false
+		}
+		pe.oracle = func(pe *pathExec, cond ssa.Value) (bool, bool) { return pe.evalBool(cond, atom) }
+		end, why := pe.run()
+		want := lv && ld && el
+		ret, ok := end.(*ssa.Return)
+		if !ok {
+			if !lv {
+				c.bad(key, p.pos(fn.Pos()), "table entries are compared position by position although the tables differ in length (index out of range, or tables accepted as equal)")
+			} else {
+				c.undecided(key, p.pos(fn.Pos()), "cannot evaluate: "+why)
+			}
+			continue
+		}
+		got, known := pe.evalBool(ret.Results[0], atom)
+		switch {
+		case !known:
+			c.undecided(key, p.instrPos(ret), "result not decided by the world")
+		case got == want:
+			c.ok(key, p.instrPos(ret), fmt.Sprintf("returns %v", got))
+		default:
+			c.bad(key, p.instrPos(ret), fmt.Sprintf("returns %v: two enum columns would be compared by code although their value tables differ, or identical tables would be refused", got))
+		}
+	}
+}
+
+// ---- R95: an enum column with a new value table re-codes its cells ----
+
+func init() {
+	register(&Rule{ID: "R95", Name: "ENUM-RECODE", Floor: 2,
+		Text: "in internal/ecolumn, where a Column is built whose value table is neither the source column's table nor the factory's own (the built-in ToUpper): (a) the source's data slice is reused only under a dominating guard that the new table has as many entries as the old one (no two codes were merged, every code keeps its meaning); (b) otherwise the data slice is allocated in the function and filled in a loop over the source data in which a null cell stores the cell itself and a non-null cell stores the entry of a translation slice indexed by the old code - and both stores exist",
+		Run:  runR95})
+}
+
+func runR95(c *Ctx) {
+	p := c.P
+	for _, fn := range p.FuncsIn("internal/ecolumn") {
+		fnm := fname(fn)
+		var srcCol *ssa.Parameter
+		for _, prm := range fn.Params {
+			if n, ok := prm.Type().(*types.Named); ok && n.Obj().Name() == "Column" {
+				srcCol = prm
+			}
+		}
+		if srcCol == nil {
+			continue
+		}
+		// composite Column literals: group stores by the alloc they fill
+		lits := map[*ssa.Alloc]map[string]*ssa.Store{}
+		eachInstr(fn, func(in ssa.Instruction) {
+			st, ok := in.(*ssa.Store)
+			if !ok {
+				return
+			}
+			fa, ok := st.Addr.(*ssa.FieldAddr)
+			if !ok {
+				return
+			}
+			al, ok := fa.X.(*ssa.Alloc)
+			if !ok {
+				return
+			}
+			if n, ok := deref(al.Type()).(*types.Named); !ok || n.Obj().Name() != "Column" {
+				return
+			}
+			if lits[al] == nil {
+				lits[al] = map[string]*ssa.Store{}
+			}
+			lits[al][fieldNameAt(fa)] = st
+		})
+		for _, fields := range lits {
+			vs, ds := fields["values"], fields["data"]
+			if vs == nil || ds == nil {
+				continue
+			}
+			// new table?
+			if fieldPathRootIsParam(vs.Val, srcCol) && fieldNameOfLoad(vs.Val) == "values" {
+				continue // the source's own table
+			}
+			if !freshSlice(vs.Val, map[ssa.Value]bool{}) {
+				continue
+			}
+			if fieldPathRootIsParam(ds.Val, srcCol) && fieldNameOfLoad(ds.Val) == "data" {
+				// (a) reuse of the data: guarded by equal table lengths
+				key := fnm + "|data reused with a new table"
+				okG := false
+				for _, g := range dominatingGuards(ds.Block()) {
+					b, ok := g.Cond.(*ssa.BinOp)
+					if !ok || !(b.Op == token.EQL && g.Val || b.Op == token.NEQ && !g.Val) {
+						continue
+					}
+					lx, okx := b.X.(*ssa.Call)
+					ly, oky := b.Y.(*ssa.Call)
+					if !okx || !oky || builtinName(lx) != "len" || builtinName(ly) != "len" {
+						continue
+					}
+					a, bb := lx.Call.Args[0], ly.Call.Args[0]
+					isOld := func(v ssa.Value) bool { return fieldPathRootIsParam(v, srcCol) && fieldNameOfLoad(v) == "values" }
+					isNew := func(v ssa.Value) bool { return freshSlice(v, map[ssa.Value]bool{}) }
+					if isOld(a) && isNew(bb) || isOld(bb) && isNew(a) {
+						okG = true
+					}
+				}
+				if okG {
+					c.ok(key, p.instrPos(ds), "only when the new table has as many entries as the old one")
+				} else {
+					c.bad(key, p.instrPos(ds), "the source's codes are kept although the new value table may have fewer entries (merged values): codes then name the wrong strings or lie outside the table")
+				}
+				continue
+			}
+			// (b) re-coded data
+			key := fnm + "|re-coded data"
+			if !freshSlice(ds.Val, map[ssa.Value]bool{}) {
+				c.undecided(key, p.instrPos(ds), "the data of the new column is neither the source's nor allocated here")
+				continue
+			}
+			nullStore, valStore := false, false
+			bad := ""
+			eachInstr(fn, func(in ssa.Instruction) {
+				st, ok := in.(*ssa.Store)
+				if !ok {
+					return
+				}
+				ia, ok := st.Addr.(*ssa.IndexAddr)
+				if !ok || !sameValue2(ia.X, ds.Val, 0) && rootValue(ia.X) != rootValue(ds.Val) {
+					return
+				}
+				underNull, underNonNull := false, false
+				var cell ssa.Value
+				for _, g := range dominatingGuards(st.Block()) {
+					if call, ok := g.Cond.(*ssa.Call); ok && isNullPredicate(call) && len(call.Call.Args) > 0 {
+						cell = call.Call.Args[0]
+						if g.Val {
+							underNull = true
+						} else {
+							underNonNull = true
+						}
+					}
+				}
+				switch {
+				case underNull:
+					if sameValue2(st.Val, cell, 0) || isNullConst(st.Val) {
+						nullStore = true
+					} else {
+						bad = "a null cell does not stay null at " + p.instrPos(st)
+					}
+				case underNonNull:
+					ok2 := false
+					if ld, ok := st.Val.(*ssa.UnOp); ok && ld.Op == token.MUL {
+						if ia2, ok := ld.X.(*ssa.IndexAddr); ok && sameValue2(stripConvInt(ia2.Index), cell, 0) && freshSlice(ia2.X, map[ssa.Value]bool{}) {
+							ok2 = true
+						}
+					}
+					if ok2 {
+						valStore = true
+					} else {
+						bad = "a non-null cell is not translated through the table of new codes at " + p.instrPos(st)
+					}
+				default:
+					bad = "a cell is stored without regard to its nullness at " + p.instrPos(st)
+				}
+			})
+			switch {
+			case bad != "":
+				c.bad(key, p.instrPos(ds), bad)
+			case !nullStore || !valStore:
+				c.bad(key, p.instrPos(ds), fmt.Sprintf("the re-coding loop is incomplete (null cells stored: %v, translated cells stored: %v)", nullStore, valStore))
+			default:
+				c.ok(key, p.instrPos(ds), "null stays null, every other cell is translated through the table of new codes")
+			}
+		}
+	}
+}
+
+func isNullConst(v ssa.Value) bool {
+	k, ok := constInt(v)
+	return ok && k == 255
+}
